@@ -288,12 +288,16 @@ pub fn run(o: &Opts) -> Report {
 256 latch values is written, with marker bytes unique per RAM bank and ROM page; random part: seeded histories (<=40 ops) \
 of paging writes (canonical and partially decoded port addresses), memory writes and reads through all four windows, \
 on both machines, with host-supplied ROM sets; after every operation the paging registers and 12 probe addresses are \
-compared. distinct/non-trivial = distinct (machine, address, non-zero value read) observations".into();
+compared; plus whole-machine lock-step runs of CPU programs made of 16-bit loads/stores/stack operations straddling the window boundaries, with the complete RAM of all banks compared afterwards. distinct/non-trivial = distinct (machine, address, non-zero value read) observations".into();
     let mut model = Model::spawn(&o.model, "C06");
 
     if let Some(text) = &o.replay {
         let (m128, roms, ops) = parse_case(text);
         rep.sample(J::s(text.clone()));
+        if text.starts_with("sys ") {
+            crate::sys::replay(o, &mut rep, "C06", text);
+            return rep;
+        }
         if let Some(f) = run_case(&mut model, m128, roms, &ops, &PROBES, Some(&mut rep)) {
             report(&mut model, &mut rep, m128, roms, &ops, f);
         }
@@ -362,5 +366,10 @@ compared. distinct/non-trivial = distinct (machine, address, non-zero value read
         }
     }
     rep.extra.push(("histories".into(), J::I(n as i64)));
+    // 3. the same map through the CPU: whole-machine lock-step of programs made of 16-bit loads, stores
+    // and stack operations whose two bytes straddle the 16K window boundaries, random latch values; the
+    // complete RAM (all banks, mapped or not) is compared with the Lean machine afterwards
+    let ts: Vec<usize> = (0..40).map(|i| i * 1700).collect();
+    crate::sys::lockstep(o, &mut rep, "C06", o.n(1200, 60_000), &ts, &ts, true);
     rep
 }
